@@ -298,6 +298,7 @@ def run_verus(unit, rlimit=200, threads=8, tag='', extra_args=(), timeout=3000):
     except Exception:
         js = None
     clause_ranges, fn_ranges = marker_map(text)
+    proof_ranges = list(marker_map.proofs)
     tb = text.encode()
     # verus spans are byte offsets; our file is ASCII in practice, but be exact
     if len(tb) != len(text):
@@ -403,7 +404,8 @@ def run_verus(unit, rlimit=200, threads=8, tag='', extra_args=(), timeout=3000):
         elif what == 'fn':
             if ident.startswith('lemma:'):
                 oid = ident
-            elif kind in ('overflow', 'division', 'shift', 'index', 'precondition', 'termination'):
+            elif kind in ('overflow', 'division', 'shift', 'index', 'precondition', 'termination') \
+                    and not any(ps <= conv(p0['byte_start']) < pe for ps, pe, _ in proof_ranges):
                 oid = ident + '#builtin'
             else:
                 oid = ident + '#proof'
